@@ -154,8 +154,8 @@ PROPS = {
         'not_decided': '"iff the condition occurred" for conditions defined over string contents (e.g. exactness of the delimiter-count heuristic).',
     },
     'C15': {
-        'rules': RS_ALL + py(wr.rule_wr_ret, wr.rule_wr_prop, wr.rule_wr_fin, sk.rule_sk_stop, sk.rule_sk_relay, sk.rule_sk_unnest_pos, conf.rule_rs_proto, conf.rule_pa_hdrcall),
-        'thorough_rules': py(rs.rule_fl_flags, rd.rule_rd_decode) + both(sk.rule_sk_err),
+        'rules': RS_ALL + py(wr.rule_wr_ret, wr.rule_wr_prop, wr.rule_wr_fin, sk.rule_sk_stop, sk.rule_sk_relay, sk.rule_sk_unnest_pos, sk.rule_sk_err, conf.rule_rs_proto, conf.rule_pa_hdrcall),
+        'thorough_rules': py(rs.rule_fl_flags, rd.rule_rd_decode) + js(sk.rule_sk_err),
         'explanation': 'Decides fault handling structure (Python): the broken-pipe handler covers every stream write, sets the flag and returns False, finish() is a no-op afterwards; the False propagates through every chain writer to stop_flag and the loops; every stream.read is reachable only through the try that maps UnicodeDecodeError to the IO error; every open() in the CSV/sqlite front-ends is closed on all paths (with / flag-coupled try-finally / object closed in the creator\'s finally); protocol: parser calls only set_header (once, unwrapped, first), the run only write, query() calls finish exactly once after a successful run, not in a finally. In the broken-pipe handlers a re-raise is possible only under a test that is false when the caught class is BrokenPipeError itself; no path that leaves a chain writer\'s finish() exceptionally has finished the sink. File handles: opened into a local and flagged at once inside try/finally, or stored on the object before anything that can raise runs.',
         'not_decided': 'OS-level behaviour of pipes and the text wrapper\'s flushing.',
     },
